@@ -51,7 +51,7 @@ already REMOVED (C11 finding F-C11-push-after-remove).  `true` = tree with
 `hooks/fix-c11-push-after-remove.patch` (the pushables are discarded when `currentDocInfo.IsRemoved()`,
 the way a stale epoch discards them; the response still carries the removed flag).  Only `Server.init`
 reads it (into `Config`). -/
-def pushAfterRemoveDiscards : Bool := false
+def pushAfterRemoveDiscards : Bool := true
 
 abbrev ClientId := Nat
 abbrev DocId := Nat
